@@ -18,6 +18,7 @@ pub struct Case {
     pub text: Vec<u8>,
     pub channel: u8, // 0 stdin, 1 file, 2 --evaluate=
     pub roundtrip: bool,
+    pub env: Vec<(String, String)>, // environment variables exported to the binary (none in ordinary cases)
 }
 
 fn canon(sp: &str) -> &'static str {
@@ -67,7 +68,8 @@ pub fn case_sx(c: &Case) -> Sx {
         },
         bytes_sx(&c.text),
         // everything below is ignored by the model: how the request reaches the binary
-        Sx::l(vec![Sx::a(if c.filter.is_empty() { "-" } else { c.filter }.replace('*', "star")), Sx::a(if c.retain.is_empty() { "-" } else { c.retain }), Sx::n(c.channel), Sx::n(c.repeat.is_some() as u8), Sx::n(c.roundtrip as u8)]),
+        Sx::l(vec![Sx::a(if c.filter.is_empty() { "-" } else { c.filter }.replace('*', "star")), Sx::a(if c.retain.is_empty() { "-" } else { c.retain }), Sx::n(c.channel), Sx::n(c.repeat.is_some() as u8), Sx::n(c.roundtrip as u8),
+                   Sx::l(c.env.iter().map(|(k, v)| Sx::l(vec![Sx::a(k.clone()), Sx::a(v.clone())])).collect())]),
     ])
 }
 
@@ -87,7 +89,14 @@ pub struct RunOut {
 }
 
 pub fn run_bin(bin: &str, args: &[String], stdin: Option<&[u8]>, limit: Duration) -> RunOut {
+    run_bin_env(bin, args, stdin, limit, &[])
+}
+
+pub fn run_bin_env(bin: &str, args: &[String], stdin: Option<&[u8]>, limit: Duration, envs: &[(String, String)]) -> RunOut {
     let mut cmd = Command::new(bin);
+    for (k, v) in envs {
+        cmd.env(k, v);
+    }
     cmd.args(args).env("RUST_BACKTRACE", "0").stdin(Stdio::piped()).stdout(Stdio::piped()).stderr(Stdio::piped());
     let mut child = match cmd.spawn() {
         Ok(c) => c,
@@ -224,7 +233,7 @@ pub fn run_case(bindir: &str, c: &Case) -> String {
         }
         _ => args.push(format!("--evaluate={}", text_utf8.unwrap_or(""))),
     }
-    let r = run_bin(&bin, &args, stdin, Duration::from_secs(20));
+    let r = run_bin_env(&bin, &args, stdin, Duration::from_secs(20), &c.env);
     for p in cleanup {
         let _ = std::fs::remove_file(p);
     }
@@ -317,7 +326,7 @@ pub const FORMULAS: [&str; 40] = [
 const FILTER_SPELLINGS: [&str; 15] = ["true", "True", "t", "T", "1", "false", "False", "f", "F", "0", "any", "Any", "a", "A", "*"];
 
 fn base(text: &str) -> Case {
-    Case { filter: "", retain: "", model: false, repeat: None, ord: None, text: text.as_bytes().to_vec(), channel: 0, roundtrip: false }
+    Case { filter: "", retain: "", model: false, repeat: None, ord: None, text: text.as_bytes().to_vec(), channel: 0, roundtrip: false, env: vec![] }
 }
 
 fn orderings(names: &[&str]) -> Vec<Vec<String>> {
@@ -339,6 +348,39 @@ fn orderings(names: &[&str]) -> Vec<Vec<String>> {
         frontier = next;
     }
     all
+}
+
+/// names of environment variables the binary may read: announced by clap in --help ("[env: NAME=...]") or
+/// mentioned in the sources (env = "NAME", env::var("NAME"), env!("NAME") excluded: that is compile time)
+pub fn env_names(bindir: &str) -> Vec<String> {
+    let mut names: Vec<String> = vec![];
+    let help = run_bin(&format!("{bindir}/rsbdd"), &["--help".to_string()], None, Duration::from_secs(20));
+    let mut texts = vec![String::from_utf8_lossy(&help.stdout).to_string()];
+    for dir in ["/repo/src", "/repo/src/bin"] {
+        if let Ok(rd) = std::fs::read_dir(dir) {
+            for e in rd.flatten() {
+                if e.path().extension().map(|x| x == "rs").unwrap_or(false) {
+                    if let Ok(t) = std::fs::read_to_string(e.path()) {
+                        texts.push(t);
+                    }
+                }
+            }
+        }
+    }
+    let pats = [r"\[env: ([A-Za-z_][A-Za-z0-9_]*)=", r#"env\s*=\s*"([A-Za-z_][A-Za-z0-9_]*)""#, r#"env::var(?:_os)?\(\s*"([A-Za-z_][A-Za-z0-9_]*)""#];
+    for p in pats {
+        let re = regex::Regex::new(p).unwrap();
+        for t in &texts {
+            for c in re.captures_iter(t) {
+                let n = c[1].to_string();
+                if !names.contains(&n) {
+                    names.push(n);
+                }
+            }
+        }
+    }
+    names.sort();
+    names
 }
 
 pub fn gen_cases(o: &Opts, part: &str) -> Vec<Case> {
@@ -408,6 +450,51 @@ pub fn gen_cases(o: &Opts, part: &str) -> Vec<Case> {
                 }
             }
         }
+        "env" => {
+            // the command line (with its files and stdin) is the only input of the model: every environment variable the
+            // binary announces in --help or reads in its source is exported with filter-like values
+            for name in env_names(&o.bindir) {
+                for val in ["True", "False", "Any", "t", "f", "0", "1"] {
+                    for (i, f) in FORMULAS.iter().enumerate().take(12) {
+                        for (filt, ret) in [("", ""), ("t", ""), ("f", ""), ("", "t"), ("f", "f"), ("a", "a")] {
+                            if (i + filt.len() + ret.len()) % 2 == 1 && !filt.is_empty() && !ret.is_empty() {
+                                continue;
+                            }
+                            let mut c = base(f);
+                            c.filter = filt;
+                            c.retain = ret;
+                            c.env = vec![(name.clone(), val.to_string())];
+                            v.push(c);
+                        }
+                    }
+                }
+            }
+        }
+        "shadow" => {
+            for (k, f) in stext::shadow_formulas().iter().enumerate() {
+                let mut c = base(f);
+                c.filter = ["", "t", "f"][k % 3];
+                c.channel = (k % 3) as u8;
+                v.push(c);
+            }
+        }
+        "names" => {
+            // long variable names (20 .. 200 characters) with an ordering file that does not list them last, and the -r / -o round trip
+            for len in [20usize, 23, 24, 25, 26, 32, 64, 200] {
+                let l1 = format!("{}_1", "reactor_cooling_valve_".repeat(10)[..len].to_string());
+                let l2 = format!("{}_2", "m".repeat(len));
+                for f in [format!("({l1} & -b) | ({l2} & c)"), format!("exists b # ({l2} | b) & ({l1} ^ c)"), format!("[{l1}, {l2}, b] = 2")] {
+                    for ord in [format!("{l2} b {l1}"), format!("{l1} c"), String::new(), format!("c {l2} unused {l1} b")] {
+                        let mut c = base(&f);
+                        if !ord.is_empty() {
+                            c.ord = Some(ord.into_bytes());
+                        }
+                        c.roundtrip = true;
+                        v.push(c);
+                    }
+                }
+            }
+        }
         "size" => {
             // size boundaries: tables with 63..130 columns; evaluations that build thousands of table entries and
             // end in a constant, repeated with -b
@@ -461,7 +548,7 @@ pub fn gen_cases(o: &Opts, part: &str) -> Vec<Case> {
             let n = if o.thorough { 10_000 } else { 1_000 };
             for _ in 0..n {
                 let text = rand_bytes(&mut rng);
-                let mut c = Case { filter: "", retain: "", model: false, repeat: None, ord: None, text, channel: (rng.below(2)) as u8, roundtrip: false };
+                let mut c = Case { filter: "", retain: "", model: false, repeat: None, ord: None, text, channel: (rng.below(2)) as u8, roundtrip: false, env: vec![] };
                 c.filter = *rng.pick(&["", "t", "f"]);
                 c.retain = *rng.pick(&["", "t", "f"]);
                 c.model = rng.chance(1, 3);
@@ -703,6 +790,11 @@ pub fn replay(op: &str, args: &Sx, bindir: &str) -> String {
         text: sx_bytes(&a[2]).unwrap_or_default(),
         channel: how.get(2).and_then(|x| x.atom()).and_then(|s| s.parse().ok()).unwrap_or(0),
         roundtrip: how.get(4).and_then(|x| x.atom()) == Some("1"),
+        env: how
+            .get(5)
+            .and_then(|x| x.list())
+            .map(|l| l.iter().filter_map(|p| Some((p.list()?.first()?.atom()?.to_string(), p.list()?.get(1)?.atom()?.to_string()))).collect())
+            .unwrap_or_default(),
     };
     run_case(bindir, &c)
 }
